@@ -299,6 +299,17 @@ def step (st : St) (fields : List String) : St × String :=
       pushUrl st (do let s ← humanRepr e u; encodeUrl e s)
     | some _, none => ({ st with urls := st.urls.push none }, "!dead")
     | _, _ => (st, "!bad-op")
+  | ["hre", b, h] =>
+    -- u.with_host(u.host): the decoded host supplied again
+    match parseBackend b, getUrl st h with
+    | some b, some u =>
+      let e : Env := { b := b, o := mkOracles st.orc }
+      pushUrl st (do
+        match ← host e u with
+        | some d => withHost e u d
+        | none => .error .typeError)
+    | some _, none => ({ st with urls := st.urls.push none }, "!dead")
+    | _, _ => (st, "!bad-op")
   | ["pkl", h] =>
     match getUrl st h with
     | some u => pushUrl st (pure (pickleTwin u))
